@@ -65,6 +65,7 @@ var aeUnsupported = []string{"gzip;q=0.1.2", "zstd;q=0..1", "gzip;q=abc", "gzip;
 
 var contentTypes = []string{
 	"text/html", "text/html; charset=utf-8", "text/plain", "application/json", "application/javascript", "image/png",
+	"text/html", "text/css", "application/json", "text/plain; charset=utf-8",
 	"image/svg+xml", "application/octet-stream", "font/woff2", "TEXT/HTML", "application/xml", "video/mp4", "application/wasm", " text/css",
 }
 
@@ -75,7 +76,7 @@ var varies = []string{"Accept-Encoding", "accept-encoding", "Origin", "Origin, A
 var cacheControls = []string{"no-transform", "public, max-age=60, no-transform", "no-store", "max-age=0", "NO-TRANSFORM", "private,no-transform"}
 
 var matchers = []string{
-	"d", "d", "d", "d", "c:*:*", "c:*:*", "c:200:*", "c:2:*", "c:2,3:*", "c:404:*", "c:0:*", "c:_:*", "c:*:_",
+	"d", "d", "d", "d", "d", "d", "c:*:*", "c:*:*", "c:*:*", "c:*:*", "c:200:*", "c:2:*", "c:2,3:*", "c:404:*", "c:0:*", "c:_:*", "c:*:_",
 	"c:*:" + core.Hex("text/*"), "c:*:" + core.Hex("*json*"), "c:*:" + core.Hex("*html"), "c:*:" + core.Hex("image/png"),
 	"c:*:" + core.Hex("*"), "c:*:" + core.Hex("**"), "c:2:" + core.Hex("text/*") + "," + core.Hex("application/json"),
 	"c:1,2:" + core.Hex("text/plain; charset=utf-8"),
@@ -401,6 +402,14 @@ func (g *genCase) one() string {
 			k = 1 + rng.Intn(6)
 		}
 		sizes := splitSizes(rng, total, k)
+		// half of the time the first call carries more than the minimum length (the eligible shape)
+		effMin := min
+		if effMin == 0 {
+			effMin = 512
+		}
+		for len(sizes) > 1 && sizes[0] <= effMin && rng.Chance(2, 3) {
+			sizes = append([]int{sizes[0] + sizes[1]}, sizes[2:]...)
+		}
 		for i, s := range sizes {
 			if rng.Chance(1, 12) && i == 0 {
 				ops = append(ops, "f")
